@@ -34,7 +34,7 @@ impl C10 {
                   mk_list(vec![func("subtract", vec![yv.clone(), T::Int(1)])], Some(xv.clone())), cplx("g", vec![cplx("h", vec![func("divide", vec![xv.clone(), T::Float(2.0)])])])] {
             terms.push(t);
         }
-        C10 { terms, n_rules: if tier == Tier::Quick { 40_000 } else { 500_000 }, n_progs: if tier == Tier::Quick { 8_000 } else { 100_000 }, seed }
+        C10 { terms, n_rules: if tier == Tier::Quick { 150_000 } else { 1_000_000 }, n_progs: if tier == Tier::Quick { 30_000 } else { 200_000 }, seed }
     }
 }
 
